@@ -6,6 +6,7 @@ ROOT = os.path.dirname(os.path.dirname(os.path.abspath(__file__)))
 # id -> (level category, level text, level note, technique, design ref)
 CHECKS = {}
 NOT_YET = {}
+READY = set(l.strip() for l in open(os.path.join(ROOT, "tools", "ready.txt")) if l.strip())
 
 def check(pid, cat, text, note, technique, ref):
     CHECKS[pid] = dict(cat=cat, text=text, note=note, technique=technique, ref=ref)
@@ -19,7 +20,7 @@ props = [json.loads(l)["id"] for l in open(os.path.join(ROOT, "properties.jsonl"
 checks = []
 na = []
 for pid in props:
-    if pid in CHECKS and os.path.isdir(os.path.join(ROOT, "harness", "props", pid.lower())):
+    if pid in CHECKS and pid in READY and os.path.isdir(os.path.join(ROOT, "harness", "props", pid.lower())):
         c = CHECKS[pid]
         checks.append({
             "property_id": pid,
